@@ -91,6 +91,9 @@ def sim_costs(net, T, seed, extra=None):
     return per
 
 
+POISSON_RATES = [2, 4, 6, 2.5, 4.6, 0.8, 3.3]      # non-integer rates too: the generator must draw Poisson(mean), not Poisson(int(mean))
+
+
 def statistical(chk, T, reps):
     from stockpyl.supply_chain_network import single_stage_system, serial_system, echelon_to_local_base_stock_levels
     from stockpyl.newsvendor import newsvendor_poisson_cost, newsvendor_normal_cost
@@ -110,12 +113,12 @@ def statistical(chk, T, reps):
                      dict(stream='statistical', kind=kind, params=params, T=len(per)))
     for _ in range(reps):
         # base-stock single stage, Poisson demand
-        L = rng.randint(1, 3); mu = rng.choice([2, 4, 6]); h = rng.choice([1, 2]); p = rng.choice([4, 9, 19]); S = int(mu * L + rng.randint(-2, 5)) if rng.random() < 0.8 else rng.choice([0, -1, -3])
+        L = rng.randint(1, 3); mu = rng.choice(POISSON_RATES); h = rng.choice([1, 2]); p = rng.choice([4, 9, 19]); S = int(mu * L + rng.randint(-2, 5)) if rng.random() < 0.8 else rng.choice([0, -1, -3])
         net = single_stage_system(holding_cost=h, stockout_cost=p, shipment_lead_time=L, demand_type='P', mean=mu, policy_type='BS', base_stock_level=S)
         per = sim_costs(net, T, rng.randint(1, 10 ** 6))
         judge('base-stock-poisson', dict(L=L, mu=mu, h=h, p=p, S=S), per, float(newsvendor_poisson_cost(S, h, p, mu * L)), 0.005)
         # (s,S) stage, L = 1, Poisson demand; fixed cost added per order placed
-        mu = rng.choice([2, 4, 6]); h = 1; p = rng.choice([4, 9]); K = rng.choice([4, 16]); s_ = int(mu + rng.randint(-2, 2)) if rng.random() < 0.7 else rng.choice([-1, -2, -4]); S_ = s_ + rng.randint(1, 8)
+        mu = rng.choice(POISSON_RATES); h = 1; p = rng.choice([4, 9]); K = rng.choice([4, 16]); s_ = int(mu + rng.randint(-2, 2)) if rng.random() < 0.7 else rng.choice([-1, -2, -4]); S_ = s_ + rng.randint(1, 8)
         net = single_stage_system(holding_cost=h, stockout_cost=p, shipment_lead_time=1, demand_type='P', mean=mu, policy_type='sS', reorder_point=s_, order_up_to_level=S_)
         def fixed(netw, TT, K=K):
             nd = netw.nodes[0]; prod = nd._dummy_product.index
@@ -126,7 +129,7 @@ def statistical(chk, T, reps):
         # order arrives OLT + SLT periods after it is placed), Poisson or low-variation normal demand, vs the newsvendor cost of (OLT+SLT)-period demand
         olt = rng.randint(1, 2); slt = rng.randint(0, 2); L = olt + slt; h = rng.choice([1, 2]); p = rng.choice([4, 9, 19])
         if rng.random() < 0.5:
-            mu = rng.choice([2, 4, 6]); S = int(mu * L + rng.randint(-2, 5))
+            mu = rng.choice(POISSON_RATES); S = int(mu * L + rng.randint(-2, 5))
             net = single_stage_system(holding_cost=h, stockout_cost=p, shipment_lead_time=slt, order_lead_time=olt, demand_type='P', mean=mu, policy_type='BS', base_stock_level=S)
             analytic = float(newsvendor_poisson_cost(S, h, p, mu * L)); kind = 'base-stock-poisson-order-lead-time'; params = dict(OLT=olt, SLT=slt, mu=mu, h=h, p=p, S=S)
         else:
@@ -140,7 +143,7 @@ def statistical(chk, T, reps):
     for _ in range(max(1, reps // 3)):
         N = 3; scheme = rng.choice(['1..N upstream-first', 'random']); chain = list(range(1, N + 1)) if scheme.startswith('1') else rng.sample(range(1, 10), N)
         c = dict(build='edges', labels=scheme, chain=chain, edges=[[chain[k], chain[k + 1]] for k in range(N - 2, -1, -1)], he=[rng.choice([1, 2]) for _ in range(N)],
-                 L=[rng.choice([1, 2]) for _ in range(N)], p=rng.choice([8, 15]), mean=rng.choice([3, 5]))
+                 L=[rng.choice([1, 2]) for _ in range(N)], p=rng.choice([8, 15]), mean=rng.choice([3, 5, 3.5]))
         net = serial_build(c)
         S_opt, _ = ssm_serial.optimize_base_stock_levels(network=net)
         S_ech = {k: int(v) + rng.choice([0, 0, 1, -1]) for k, v in S_opt.items()}
